@@ -37,4 +37,13 @@ TEXTS["C06"] = {
     "note": TB,
     "technique": "Lean 4 theorems over the executable timeout-bookkeeping model + differential correspondence + protocol monitor",
 }
+TEXTS["C14"] = {
+    "text": "Proved over Int balances for all ledgers/accounts/amounts on the model of transfer/payGasFee/payLeftAsGasFee/payAdmins: a successful transfer between distinct accounts moves exactly v and "
+            "needs 0<v<=balance (C14_transfer_exact), a self-transfer is neutral (C14_self_transfer_neutral), a transfer fails exactly for negative or uncovered amounts "
+            "(C14_transfer_fails_iff), no balance becomes negative (C14_transfer_nonneg, C14_payGasFee_sender_nonneg), rounding loss of the admin split is within [0,n-1] (C14_fee_rounding). "
+            "Two genuine defects found by this check (self-transfer created value; negative amount moved value backwards and below zero) were repaired by fix: commits and the model follows the repaired code. "
+            "Model is run against the real executor; monitor recomputes the sum of all balances after every block.",
+    "note": TB + " EVM/XVM balance effects (wasm set_balance host call) and the admin-registration grant are outside the exec op language.",
+    "technique": "Lean 4 arithmetic theorems over the executable fee/transfer model + differential correspondence + balance-sum monitor",
+}
 NOT_YET = {}
